@@ -151,3 +151,10 @@ PROPS['C16'] = dict(
     trusted_base=['CPython enforces the immutability of NamedTuple, frozen dataclass, immutables.Map, frozenset and tuple', 'tools/py2v/inventory.py (syntactic mutation-site scan)'],
     assumptions=['PARTIAL by nature: the Gallina model cannot express in-place mutation; see Props/C16.v'],
 )
+
+import eng_c15
+PROPS['C15'].update(engines=[eng_c15.engine], extended=[eng_c15.engine], replayers=[eng_c15.replayer],
+    rule='step-model cases (clock) + eng_c15: each scenario advanced one step at a time, by random splits of crank calls, by LocalSimulationRunner.run and by LocalSimulationRunner.step until it refuses; evaluations = scenario runs')
+
+import eng_c19
+PROPS['C19'].update(engines=[eng_c19.engine], extended=[eng_c19.engine], replayers=[eng_c19.replayer])
